@@ -366,7 +366,7 @@ def generate(rng, idx, tier, variant):
             # an unsigned-integer series (its own dtype kind; integer-valued like any other)
             ops.append({'op': 'add_variable', 'obj': 0, 'name': 'U0', 'value': _good_vspec(rng, g, 'int'), 'dtype': 'uint'})
             g['names'][0].append(('U0', 'int'))
-        if variant == 'reindex' and rng.random() < 0.08:
+        if variant in ('reindex', 'labels', 'container') and rng.random() < 0.08:
             # a variable whose name is also the name of a container attribute / property: reachable by key only
             rn = rng.choice(RESERVED)
             ops.append({'op': 'add_variable', 'obj': 0, 'name': rn, 'value': _good_vspec(rng, g, 'float'), 'dtype': 'float'})
@@ -979,6 +979,7 @@ def execute(schedule, ctx):
             v_.cb = None  # (an object that cannot be copied: no shadow to judge a failed outer operation against)
 
     cur = {'obj': None}
+    shared_locals = {}
 
     for step, op in enumerate(schedule['ops']):
         ctx.step = step
@@ -1586,6 +1587,43 @@ def execute(schedule, ctx):
 
         elif kind == 'get':
             nm = op['name']
+            # ---- reads that list or look up names (interactive completion, dir()): reads, so nothing may change
+            if op.get('pos', 0) % 3 == 0:
+                try:
+                    dir(x)
+                    list(x._ipython_key_completions_())
+                    ctx.probe('read:completions-and-dir')
+                except Exception as e_:
+                    ctx.check('C09', 'read/completions-raise', False, {'exc': type(e_).__name__})
+                now_ = O.obs(x)
+                ctx.check('C09', 'read/completions-changed-the-object', now_ == before[i], {'paths': O.diff(before[i], now_)[:4]})
+            # ---- the same caller-owned dict handed as `locals` to eval() on every object of the run: each object answers
+            #      with its own data, and the caller's dict comes back as it was
+            if op.get('pos', 0) % 4 == 1 and nm in party.ref and nm.isidentifier() and ('names' not in d or nm in d['names']):
+                try:
+                    got_ = x.eval(nm, locals=shared_locals)
+                    ok_ = isinstance(got_, np.ndarray) and RC.arrays_equal(np.asarray(got_), d['_' + nm])
+                    ctx.check('C11', 'eval/shared-locals-dict-carries-data-between-objects', ok_ and not shared_locals, {'name': nm, 'dict-now-holds': sorted(map(str, shared_locals))[:6]})
+                    ctx.probe('eval-with-a-shared-locals-dict')
+                except Exception as e_:
+                    ctx.check('C11', 'eval/shared-locals-dict-carries-data-between-objects', False, {'exc': type(e_).__name__})
+                shared_locals.clear()
+            # ---- the same object on an empty span: any label is absent (KeyError), an open slice addresses nothing
+            if op.get('pos', 0) % 5 == 2 and nm in party.ref and 'submodels' not in d and party.span_spec is not None and party.span_spec['type'] not in ('pd_period_y', 'pd_period_q', 'pd_datetime'):
+                # (not on pandas time indexes: a date-like string against an empty one is a partial-string look-up, which
+                # pandas answers with an empty slice by design; and an OPEN slice on an empty span is left alone - the
+                # property speaks of the ends of the span, and an empty span has none)
+                try:
+                    y_ = x.reindex(spans.make_span(dict(party.span_spec, n=0)))
+                except Exception:
+                    y_ = None
+                if y_ is not None and len(y_.__dict__['span']) == 0:
+                    ctx.probe('empty-span-label-access')
+                    lab_ = absent(party, ctx.step % 3)
+                    e_ = attempt(lambda: y_[nm, lab_])
+                    ctx.check('C10', 'label/absent-get-must-raise-KeyError/empty-span', isinstance(e_, KeyError), {'exc': type(e_).__name__ if e_ else None})
+                    e_ = attempt(lambda: y_.__setitem__((nm, lab_), 1))
+                    ctx.check('C10', 'label/absent-must-raise-KeyError/empty-span', isinstance(e_, KeyError), {'exc': type(e_).__name__ if e_ else None})
             if nm in party.ref:
                 sty = party.span_spec['type'] if party.span_spec else 'custom'
                 a, b, step = op['a'], op['b'], op['step']
